@@ -74,7 +74,13 @@ def cmdValidateOutInt (head payload : String) : String :=
   match parsePacket payload, settingsOf kv, kv.num "csei", resolutionOf kv with
   | some p, some s, some csei, some r =>
     let res : Option Resolution := if (kv.get "skip").isSome || (kv.get "alias").isSome then some r else none
-    vresText (validateOutboundInternal p (some s) (csei.getD 0) res)
+    -- `padpayload=<n>`: a PUBLISH with a payload of n bytes that is never materialised: its lengths are those of the
+    -- packet without payload plus n (`publishLengths5_payload` in Proofs/Validate.lean)
+    (match p, kv.num "padpayload" with
+     | .publish pb, some (some n) =>
+       let base := publishLengths5 { pb with payload := none } (res.getD {})
+       vresText (vPublishInternalWith (base.map (fun l => (l.1 + n, l.2))) pb (some s))
+     | _, _ => vresText (validateOutboundInternal p (some s) (csei.getD 0) res))
   | _, _, _, _ => "res=bad-request"
 
 def cmdValidateIn (payload : String) : String :=
